@@ -14,6 +14,8 @@ from . import known, minimise, pool, stage
 from . import workload as W
 
 VERIF = stage.VERIF
+# scratch runs against mutated copies (selftest/try_patch.sh) write their evidence and replays elsewhere
+OUT = os.environ.get("VERIF_OUT") or VERIF
 EXIT_OK, EXIT_VIOLATION, EXIT_HARNESS = 0, 1, 2
 
 MACHINE_OF = {"C08": "c08", "C09": "c09", "C19": "c19", "C20": "c20"}
@@ -232,8 +234,8 @@ def process_violations(prop, machine, agg, cr, findings, budget_s, max_report=3,
         if ok < 2:
             unconfirmed.append({"seed": ent["seed"], "backend": backend, "why": "minimised case replayed %d/2" % ok, "violation": v0})
             continue
-        os.makedirs(os.path.join(VERIF, "replays"), exist_ok=True)
-        path = os.path.join(VERIF, "replays", "%s-%s-%d.json" % (prop, backend, ent["seed"]))
+        os.makedirs(os.path.join(OUT, "replays"), exist_ok=True)
+        path = os.path.join(OUT, "replays", "%s-%s-%d.json" % (prop, backend, ent["seed"]))
         small = dict(small)
         small.update({"property": prop, "machine": m, "backend": backend, "stage_hash": stage.stage_hash(cr.stage_dir),
                       "env": env or {}, "expect": {"signature": want, "violation": last}, "seed": ent["seed"]})
@@ -275,8 +277,8 @@ def run_witnesses(prop, cr, findings):
 
 
 def write_evidence(prop, data):
-    os.makedirs(os.path.join(VERIF, "evidence"), exist_ok=True)
-    path = os.path.join(VERIF, "evidence", prop + ".json")
+    os.makedirs(os.path.join(OUT, "evidence"), exist_ok=True)
+    path = os.path.join(OUT, "evidence", prop + ".json")
     tmp = path + ".tmp"
     with open(tmp, "w") as f:
         json.dump(data, f, indent=1, sort_keys=True, default=str)
